@@ -25,4 +25,9 @@ CHECKS = {
   "text": "Idempotence is checked on a fresh rebuild of the simplifier's output (so cached 'simp' flags cannot hide a second rewrite); order-insensitivity on two random arrangements (permutation and re-association, near-equal operands included) of the same operand multiset for + * ^ & |; seed independence by running a corpus of expressions, decoded/rendered/lifted instructions and emulated state dumps in 8 child processes with different hash seeds and comparing item by item.",
   "note": "Exceptions of the simplifier are C05's business and skipped here. Seed independence is checked for 8 seed values on a sampled corpus.",
  },
+ "C06": {
+  "technique": "Hypothesis-generated (expression, machine state, valuation) triples; differential against a reference interpreter applied to the substituted expression (byte-overlay model for bound memory cells)",
+  "text": "eval_abs.eval_expr is run on generated expressions (random trees, 3/4-ary associative operators, lifter-only operators) in states that bind identifiers and same-address memory cells to constants, symbolic expressions over free symbols, or nothing. For 6 valuations of the free symbols the value of the result must equal the reference value of the original expression after substitution; widths must agree; bound identifiers are poisoned so an unsubstituted one is visible; with all-constant inputs and core operators the result must be an integer constant.",
+  "note": "Trusted: vlib/irsem.py. Fresh objects/machine per case and the shared default eval_cache cleared (hidden state is C12's subject). Reads that partially overlap a bound cell, mutually overlapping cells and valuations under which an unbound read aliases a bound cell are excluded and counted (C07's subject / outside the machine's stated model). Lifter-only named operators (umul32_hi, div32...) may stay symbolic on constants.",
+ },
 }
